@@ -4,6 +4,8 @@ package mc
 
 import (
 	"fmt"
+	"strconv"
+	"strings"
 
 	"cosmossdk.io/math"
 	sdk "github.com/cosmos/cosmos-sdk/types"
@@ -224,6 +226,10 @@ func BuildRoot(w *World, root string, lib *OpLib) {
 		// (v4, uelys/uusdc) enabled for leveraged LP — second accounted pool, second perpetual pool — with
 		// open positions of both modules in BOTH venues (t1 holds a perpetual position in each), locks expired
 		prefix = []string{"perp_open_long_t1", "perp_open_short_t2", "llp_open_t1_x3", "swap_in_p1_usdc_atom_L", "swap_in_p2_elys_usdc_L", "gap_1d", "mc_claim_lp1", "commit_eden_lp1", "vest_eden_lp1", "stake_elys_lp1", "v4_create_lp1", "cfg_llp_addpool_v4", "v4_perp_open_long_t1", "v4_perp_open_short_t3", "v4_llp_open_t2_x3", "v4_swap_in_usdc_elys_L", "gap_61m"}
+	case "R20":
+		// MANY BLOCKS: R3 (leveraged-LP sweep off, so nothing touches the open positions' debts) followed by
+		// 1000 ordinary blocks — counters, indices and "last touched at height" fields are a thousand blocks old
+		prefix = []string{"perp_open_long_t1", "perp_open_short_t2", "llp_open_t1_x3", "swap_in_p1_usdc_atom_L", "swap_in_p2_elys_usdc_L", "gap_1d", "mc_claim_lp1", "commit_eden_lp1", "vest_eden_lp1", "stake_elys_lp1", "cfg_llp_fallback_off", "llp_open_t2_x5", "idle_blocks_1000"}
 	case "R2":
 		// degraded: pool 1 far off target, vault highly utilised, dust positions
 		prefix = []string{"llp_open_t2_x5", "perp_open_long_t1", "swap_in_p1_usdc_atom_XL", "unbond_lp2_L", "perp_open_short_t2_dust", "gap_1h"}
@@ -231,6 +237,16 @@ func BuildRoot(w *World, root string, lib *OpLib) {
 		panic("unknown root " + root)
 	}
 	for _, n := range prefix {
+		if strings.HasPrefix(n, "idle_blocks_") {
+			// N ordinary blocks (feeder's prices, 5 s apart), executed one by one: only a root can afford them
+			cnt, _ := strconv.Atoi(strings.TrimPrefix(n, "idle_blocks_"))
+			for i := 0; i < cnt; i++ {
+				if br := w.ExecOp(lib.Get("empty")); !br.OK() {
+					panic("root " + root + " op " + n + ": " + br.Err)
+				}
+			}
+			continue
+		}
 		op := lib.Get(n)
 		br := w.ExecOp(op)
 		if !br.OK() {
@@ -241,7 +257,7 @@ func BuildRoot(w *World, root string, lib *OpLib) {
 
 // Variants are configuration changes permitted by validation, applied through the real gov
 // message servers (with the message's ValidateBasic when it has one) at fixture time.
-var AllVariants = []string{"", "llp_fallback_off", "mc_lps1", "mc_lps0_stakers1", "mc_stakers_tiny", "es_provider1", "es_provider0", "oracle_min", "vest_blocks0", "perp_extreme", "ss_rates_equal", "tok_inflation_deleted", "tok_window_future", "vestinfo_uatom", "vest_max1", "ss_epoch0"}
+var AllVariants = []string{"", "llp_fallback_off", "mc_lps1", "mc_lps0_stakers1", "mc_stakers_tiny", "es_provider1", "es_provider0", "oracle_min", "vest_blocks0", "perp_extreme", "ss_rates_equal", "tok_inflation_deleted", "tok_window_future", "vestinfo_uatom", "vest_max1", "ss_epoch0", "llp_fallback_on"}
 
 type validator interface{ ValidateBasic() error }
 
@@ -296,10 +312,10 @@ func variantGov(w *World, variant string) func(ctx sdk.Context) error {
 			_, err := eskeeper.NewMsgServerImpl(*app.EstakingKeeper).UpdateParams(ctx, m)
 			return err
 		}
-	case "llp_fallback_off":
+	case "llp_fallback_off", "llp_fallback_on":
 		return func(ctx sdk.Context) error {
 			p := app.LeveragelpKeeper.GetParams(ctx)
-			p.FallbackEnabled = false
+			p.FallbackEnabled = variant == "llp_fallback_on"
 			m := &llptypes.MsgUpdateParams{Authority: gov, Params: &p}
 			if err := vb(m); err != nil {
 				return err
